@@ -49,8 +49,8 @@ Definition roll_back (ccd : list path) : M unit :=
   let dirs_to_remove := filter (fun d => negb (mem_path d (c_dirs (w_old w)))) all in
   mapM_ try_to_remove_file (c_built (w_new w)) ;;;
   remove_empty_dirs dirs_to_remove ;;;
-  create_dirs (c_dirs (w_old w)) ;;;
-  restore_all.
+  restore_all ;;;
+  create_dirs (c_dirs (w_old w)).
 
 (* Cache.write(cache_filename): gzip.open creates the file, then the text is written *)
 Definition write_cache : M unit :=
